@@ -18,10 +18,14 @@ CHECKS = {
     },
     "C09": {
         "groups": ["c09"],
-        "quick": {"match": "^H09", "budget": 900},
+        "quick": {"match": "^H09", "budget": 900, "query_timeout_ms": 60000},
         "thorough": {"match": "^H09", "budget": 3000, "query_timeout_ms": 120000},
-        "what": "abi.QuoteToProto / QuoteToAbiBytes executed on a byte string of symbolic total length and symbolic content",
-        "bounds": {"input_length": "0..2^20 symbolic"},
+        "what": "abi.QuoteToProto / QuoteToAbiBytes / Header-, TdQuoteBody-, EnclaveReportToAbiBytes executed (a) on a byte string of symbolic "
+                "total length and content: accepted iff the harness's own v4 layout predicate holds, every parsed field equals the input slice "
+                "at the harness's own offset (compared at a symbolic position), and re-serialising reproduces the input at a symbolic index; "
+                "(b) on a well-formed message with symbolic field contents, symbolic QE auth data / chain / extra lengths: serialise then parse "
+                "gives back every field",
+        "bounds": {"input_length": "0..2^20 symbolic", "qe_auth_data": "0..65535 symbolic", "chain": "0..2^19 symbolic", "extra": "absent or 1..2^18 symbolic"},
         "outside": ["inputs of 4 GiB and more (uint32(len) truncates)"],
         "assumptions": ["fmt.Errorf returns a non-nil error (native model)"],
     },
@@ -42,3 +46,15 @@ CHECKS["C14"] = {
 
 # properties not claimed (reason shown in MANIFEST.json)
 NOT_APPLICABLE = {}
+
+CHECKS["C10"] = {
+    "groups": ["c10"],
+    "quick": {"match": "^H10", "budget": 900},
+    "thorough": {"match": "^[HT]10", "budget": 3000, "query_timeout_ms": 120000},
+    "what": "every public parsing / serialisation / validation entry point executed on untrusted input with all implicit panic "
+            "obligations (nil dereference, index, slice bounds incl. capacity, make size, type assertion, explicit panic) as solver queries "
+            "and unwinding assertions on every loop",
+    "bounds": {"raw_input_length": "0..2^20 symbolic", "message_field_length": "0..70000 symbolic (0..100 for validation)", "rtmr_count": "0..5"},
+    "outside": ["panics inside the Go standard library or dependencies behind stubs", "inputs of 4 GiB and more"],
+    "assumptions": ["fmt.Errorf returns a non-nil error; logger is a no-op"],
+}
